@@ -4,7 +4,9 @@ go 1.24.0
 
 require (
 	github.com/omec-project/upf-epc v0.0.0
+	github.com/wmnsk/go-pfcp v0.0.24
 	go.uber.org/zap v1.27.0
+	google.golang.org/grpc v1.71.0
 )
 
 require (
@@ -22,13 +24,11 @@ require (
 	github.com/prometheus/client_model v0.2.0 // indirect
 	github.com/prometheus/common v0.26.0 // indirect
 	github.com/prometheus/procfs v0.6.0 // indirect
-	github.com/wmnsk/go-pfcp v0.0.24 // indirect
 	go.uber.org/multierr v1.10.0 // indirect
 	golang.org/x/net v0.38.0 // indirect
 	golang.org/x/sys v0.31.0 // indirect
 	golang.org/x/text v0.23.0 // indirect
 	google.golang.org/genproto v0.0.0-20230410155749-daa745c078e1 // indirect
-	google.golang.org/grpc v1.71.0 // indirect
 	google.golang.org/protobuf v1.36.5 // indirect
 )
 
